@@ -248,6 +248,11 @@ static std::string step(const std::string& line) {
     code.section_by_id(uint32_t(u0))->set_virtual_size(u1);
     return answer(Error::kOk);
   }
+  if (op == "setoffset" && w.size() == 2) {
+    // BaseAssembler::set_offset - NOT part of the modelled op language (notes/C03.md, round 10): witness runs only
+    if (!vh::parse_u64(w[1], u0)) return "bad-op";
+    return answer(a->set_offset(size_t(u0)));
+  }
   if (op == "flatten" && w.size() == 1) return answer(code.flatten());
   if (op == "resolve" && w.size() == 1) return answer(code.resolve_cross_section_fixups());
   if (op == "relocate" && w.size() == 2) {
